@@ -15,7 +15,7 @@ import rfc8032
 from core import World, register, Hbytes, HarnessError
 from refmodel import (Ledger, counted_keys, independent_entry_valid, keylist_ok, payload_hash, pgp_digest,
                       refcanon, threshold_ok, typed_eq, version_successor)
-from seams import (LibCalls, Patcher, SimFS, SimClockState, load_library, make_clock_class, exc_site)
+from seams import (LibCalls, Patcher, SimFS, SimClockState, install_clock, load_library, make_clock_class, exc_site)
 from world_envelope import GpgStub, KeyRing, _tweak_entry
 
 IMPLS = ["simgpg", "simgpg", "lib-gpg", "lib-gpg-file", "indep-pgp"]
@@ -49,7 +49,8 @@ class ChainWorld(World):
             "start_version": rng.choice(START_VERSIONS) if rng.random() < 0.9 else rng.choice(EXOTIC_VERSIONS),
             "start_keys": rng.randint(1, min(4, n_keys)),
             "profile": "history",
-            "single_cache_file": rng.random() < 0.5,     # client keeps one root.json it rewrites, or N.root.json per adoption
+            "single_cache_file": rng.random() < 0.5,
+            "werror": rng.random() < 0.2,     # client keeps one root.json it rewrites, or N.root.json per adoption
         }
         h["start_threshold"] = rng.randint(1, h["start_keys"])
         if prop == "C03" and rng.random() < 0.5:
@@ -60,7 +61,7 @@ class ChainWorld(World):
     def __init__(self, run, header):
         super().__init__(run, header)
         self.lib = load_library()
-        self.calls = LibCalls(run, self.lib, header.get("encoding", "utf-8"))
+        self.calls = LibCalls(run, self.lib, header.get("encoding", "utf-8"), werror=bool(header.get("werror")))
         self.keys = KeyRing(self.lib, header["key_seeds"])
         self.ledger = Ledger()
         self.clock = float(header.get("epoch", 1.6e9))
@@ -70,11 +71,12 @@ class ChainWorld(World):
         rs = self.lib.root_signing
         self.patch.set(rs, "SSLIB_AVAILABLE", True)
         self.patch.set(rs, "gpg_funcs", self.gpgstub)
-        self.patch.set(self.lib.common, "open", self.fs.open)
+        self.fs.install_open(self.patch, self.lib)
         self.fs.install_stat(self.patch)
+        self.fs.install_rename(self.patch)
         self.cstate = SimClockState(self.clock)
         self.cstate.hook = self._clock_hook
-        self.patch.set(self.lib.common, "datetime", make_clock_class(self.cstate))
+        install_clock(self.patch, self.lib, self.cstate)
         self.compromised = set()
         self.honest_payloads = set()     # payload hashes of every root the honest quorum decided on
         self.repo = {}                   # version (as repr) -> doc
